@@ -71,7 +71,7 @@ def _trace_sig(t, k):
 def run(ctx):
     from harness.replay import reprepare as rr
     nhosts = 2 if ctx.quick else 3
-    consts = {"NHosts": nhosts, "MaxUnprep": 2 if ctx.quick else 3}
+    consts = {"NHosts": nhosts, "MaxUnprep": 2}        # recorded runs go to 3 UNPREPARED answers
     cfg = tlc.write_cfg(os.path.join(ctx.scratch, "reprepare.cfg"), constants=consts, invariants=INV, properties=PROPS,
                         deadlock=False)
     res, nodes, edges, init = tlc.state_graph("Reprepare", cfg, ctx.scratch, coverage=True, timeout=1200)
